@@ -12,14 +12,15 @@ PROPERTY = "C19"
 RULE = ("caption sets of 1-3 languages x 0-8 captions with generated runs of identical "
         "(start, end) at every position, nodes TEXT/BREAK/STYLE; (retime) rate_skew = k/64 with "
         "k in [1,256] (exact in binary floating point, compared exactly with Fraction "
-        "arithmetic) or an arbitrary float in (0,4] (tolerance 1e-3 us), integer offsets of both "
+        "arithmetic) or a float in (0,4] - arbitrary, or decimal (n/10, n/100, n/1000, 25/24, 1000/1001 ...) with times on the millisecond grid so that products land within an ulp of a whole number (tolerance 1e-3 us) - integer offsets of both "
         "signs up to +-24h biased to the negated start times; (merge) reference run-merging on "
         "the model, plus idempotence. Non-trivial: retime drops >=1 caption while keeping >=1 "
         "or uses skew != 1; merge input has a run of >=2 concurrent captions next to a "
         "non-concurrent one.")
 ASSUMPTIONS = [
-    "times are integer microseconds below 24h; float skews are compared with 1e-3 us tolerance "
-    "and cases whose new start lies within that tolerance of 0 are not judged",
+    "times are integer microseconds below 24h; float skews are compared with 1e-3 us tolerance; "
+    "a new start within that tolerance of 0 is judged only when the exact value of "
+    "t*skew+offset (skew = the given double) and its double-precision evaluation have the same sign",
 ]
 
 
@@ -82,7 +83,20 @@ def retime_strategy(tier):
             skew = None
         else:
             k = None
-            skew = draw(st.floats(min_value=1e-3, max_value=4.0, allow_nan=False))
+            skew = draw(st.one_of(
+                st.floats(min_value=1e-3, max_value=4.0, allow_nan=False),
+                # decimal skews (0.7, 1.1, 1.001, 25/24 ...): products with round times land
+                # within an ulp of a whole number
+                st.builds(lambda n, d: n / d, st.integers(1, 40), st.sampled_from([10, 10, 100, 1000])),
+                st.sampled_from([0.7, 1.1, 0.3, 1.001, 0.999, 25 / 24, 24 / 25, 1000 / 1001, 1001 / 1000])))
+            if draw(st.booleans()):
+                # times on the millisecond grid
+                for l in s["langs"]:
+                    for c in l["cues"]:
+                        d = c["end"] - c["start"]
+                        c["start"] = c["start"] // 100000 * 100000 if draw(st.booleans()) else c["start"] // 1000 * 1000
+                        c["end"] = c["start"] + d
+                starts = [c["start"] for l in s["langs"] for c in l["cues"]] or [0]
         mode = draw(st.integers(0, 4))
         base = draw(st.sampled_from(starts))
         if mode == 0:
@@ -93,6 +107,8 @@ def retime_strategy(tier):
             # aim at the boundary "new start == 0" of some caption
             sk = Fraction(k, 64) if k else Fraction(skew)
             off = -int(base * sk) + draw(st.sampled_from([-2, -1, 0, 0, 1, 2, 1000, -1000]))
+            if not k and draw(st.booleans()):
+                off = -round(base * skew) + draw(st.sampled_from([-1, 0, 0, 0, 1]))
         return {"set": s, "k": k, "skew": skew, "offset": off}
     return build()
 
@@ -117,8 +133,12 @@ def check_retime(case, rec):
             ns = c["start"] * skew_q + off
             ne = c["end"] * skew_q + off
             if not exact and abs(ns) < Fraction(1, 1000):
-                rec.label("boundary-skipped")
-                return
+                # the sign of the new start is judged only where the exact value and the
+                # double-precision evaluation of t*skew+offset agree on it
+                if (ns >= 0) != (c["start"] * skew_f + off >= 0):
+                    rec.label("boundary-skipped")
+                    return
+                rec.label("float-boundary-judged")
             if ns >= 0:
                 exp.append((ns, ne, c["nodes"]))
                 kept += 1
